@@ -130,6 +130,117 @@ def patterns(tier):
     return P
 
 
+SCALE, TSCALE = 2000, 200
+
+
+def _g(arr, scale=SCALE):
+    a = np.asarray(arr)
+    if a.ndim == 1:
+        return [[int(round(float(np.real(z)) * scale)), int(round(float(np.imag(z)) * scale))] for z in a]
+    return [_g(x, scale) for x in a]
+
+
+def _gram(M, cols):
+    """certificate of positive semidefiniteness and of rank <= cols: A with A A^dagger = M (top `cols` eigenpairs, negatives clipped)"""
+    M = np.asarray(M, dtype=complex)
+    w, v = np.linalg.eigh((M + M.conj().T) / 2)
+    idx = np.argsort(w)[::-1][:cols]
+    return v[:, idx] * np.sqrt(np.maximum(w[idx], 0))
+
+
+def _dm_claims(M, cols):
+    n = len(M)
+    return [dict(c='shape', M=_g(M), rows=n, cols=n), dict(c='hermitian', M=_g(M)), dict(c='trace1', M=_g(M)), dict(c='gram', M=_g(M), A=_g(_gram(M, cols)), cols=int(cols))]
+
+
+def membership_event(a, seed):
+    """execute one call descriptor of MC_RngArgs and state the membership claims about its (rounded) output"""
+    import numqi
+    R = numqi.random
+    fn, d1, d2, k, flag, batch = a['fn'], a['d1'], a['d2'], a['k'], a['flag'], a['batch']
+    C = []
+    if fn == 'rand_haar_state':
+        v = R.rand_haar_state(d1, tag_complex=flag, seed=seed)
+        C += [dict(c='unit', v=_g(v)), dict(c='len', v=_g(v), n=d1)] + ([] if flag else [dict(c='realv', v=_g(v))])
+    elif fn == 'rand_haar_unitary':
+        U = R.rand_haar_unitary(d1, seed=seed)
+        C += [dict(c='unitary', M=_g(U)), dict(c='shape', M=_g(U), rows=d1, cols=d1)]
+    elif fn == 'rand_special_orthogonal_matrix':
+        U = R.rand_special_orthogonal_matrix(d1, batch_size=(batch or None), tag_complex=flag, seed=seed)
+        Us = U if batch else U[None]
+        C.append(dict(c='len', v=[[0, 0]] * len(Us), n=max(batch, 1)))
+        for u in Us:
+            C += [dict(c='unitary', M=_g(u)), dict(c='det1', M=_g(u, TSCALE), T=TSCALE), dict(c='shape', M=_g(u), rows=d1, cols=d1)] + ([] if flag else [dict(c='real', M=_g(u))])
+    elif fn == 'rand_density_matrix':
+        M = R.rand_density_matrix(d1, k=(k or None), kind='bures' if flag else 'haar', seed=seed)
+        C += _dm_claims(M, k or d1)
+    elif fn == 'rand_kraus_op':
+        K = R.rand_kraus_op(k, d1, d2, tag_complex=flag, seed=seed)
+        C.append(dict(c='kraus', Ms=_g(K)))
+        C.append(dict(c='len', v=[[0, 0]] * len(K), n=k))
+        for x in K:
+            C.append(dict(c='shape', M=_g(x), rows=d2, cols=d1))
+            if not flag:
+                C.append(dict(c='real', M=_g(x)))
+    elif fn == 'rand_choi_op':
+        M = R.rand_choi_op(d1, d2, rank=(k or None), seed=seed)
+        n = d1 * d2
+        C += [dict(c='shape', M=_g(M), rows=n, cols=n), dict(c='hermitian', M=_g(M)), dict(c='gram', M=_g(M), A=_g(_gram(M, k or n)), cols=int(k or n)), dict(c='tp', M=_g(M), di=d1, do=d2)]
+    elif fn == 'rand_povm':
+        E = R.rand_povm(d1, k, seed=seed)
+        C.append(dict(c='sumto', Ms=_g(E)))
+        C.append(dict(c='len', v=[[0, 0]] * len(E), n=k))
+        for x in E:
+            C += [dict(c='hermitian', M=_g(x)), dict(c='gram', M=_g(x), A=_g(_gram(x, d1)), cols=d1), dict(c='shape', M=_g(x), rows=d1, cols=d1)]
+    elif fn == 'rand_bipartite_state':
+        dB = d2 or d1
+        out = R.rand_bipartite_state(d1, (d2 or None), k=(k or None), seed=seed, return_dm=flag)
+        if flag:
+            C += _dm_claims(out, 1)
+        else:
+            C += [dict(c='unit', v=_g(out)), dict(c='len', v=_g(out), n=d1 * dB)]
+            if k and np.asarray(out).shape == (d1 * dB,):
+                P = np.asarray(out).reshape(d1, dB)
+                red = P @ P.conj().T
+                C.append(dict(c='gram', M=_g(red), A=_g(_gram(red, k)), cols=k))          # Schmidt rank <= k
+    elif fn == 'rand_separable_dm':
+        dB = d2 or d1
+        M = R.rand_separable_dm(d1, (d2 or None), k=k, seed=seed, pure_term=flag)
+        n = d1 * dB
+        C += _dm_claims(M, n)
+        if np.asarray(M).shape == (n, n):
+            pt = np.asarray(M).reshape(d1, dB, d1, dB).transpose(0, 3, 2, 1).reshape(n, n)
+            C.append(dict(c='gram', M=_g(pt), A=_g(_gram(pt, n)), cols=n))                 # PPT: necessary for a mixture of products
+    elif fn == 'rand_hermitian_matrix':
+        eig = {0: None, 1: (-1, 2), 2: (0, 1)}[k]
+        M = R.rand_hermitian_matrix(d1, eig=eig, tag_complex=flag, seed=seed)
+        C += [dict(c='hermitian', M=_g(M)), dict(c='shape', M=_g(M), rows=d1, cols=d1)] + ([] if flag else [dict(c='real', M=_g(M))])
+        if eig:
+            I = np.eye(d1)
+            C.append(dict(c='between', M=_g(M), lo=eig[0], hi=eig[1], A=_g(_gram(np.asarray(M) - eig[0] * I, d1)), B=_g(_gram(eig[1] * I - np.asarray(M), d1))))
+    elif fn in ('rand_n_sphere', 'rand_n_ball'):
+        f = getattr(R, fn)
+        out = f(d1, size=(batch or None), seed=seed)
+        rowsv = out if batch else out[None]
+        C.append(dict(c='len', v=[[0, 0]] * len(rowsv), n=max(batch, 1)))
+        for v in rowsv:
+            C += [dict(c='unit' if fn == 'rand_n_sphere' else 'ball', v=_g(v)), dict(c='realv', v=_g(v)), dict(c='len', v=_g(v), n=d1)]
+    elif fn == 'rand_ABk_density_matrix':
+        M = R.rand_ABk_density_matrix(d1, d2, k, seed=seed)
+        C += _dm_claims(M, d1 * d2 ** k)
+        if k == 2:
+            C.append(dict(c='symB', M=_g(M), dA=d1, dB=d2))
+    elif fn == 'rand_orthonormal_matrix_basis':
+        B = R.rand_orthonormal_matrix_basis(d1, d2, with_I=flag, seed=seed)
+        B = B[1:] if flag else B
+        C.append(dict(c='len', v=[[0, 0]] * len(B), n=d1 * d2))
+        for i in range(0, len(B), d2):
+            C += [dict(c='orthomats', Ms=_g(B[i:i + d2])), dict(c='sumto', Ms=_g(B[i:i + d2]))]
+    else:
+        raise KeyError(fn)
+    return dict(op='valid', kind='cont', fn=fn, a=a, S=SCALE, seed=seed, claims=C)
+
+
 def run_history(hist, kind, f):
     import torch
     ev = []
@@ -186,7 +297,7 @@ def run(ctx):
                 'calls executed: %s per call pattern); discrete generators: membership decided exactly for seeds 0..%d; distinct by (pattern, history)'
                 % ('' if quick else ', CHABoundaryBagging.solve, optimize.minimize', '14' if quick else '150', 30 if quick else 300))
     ctx.assumptions = ['TLC/SANY correct', 'bit-identical reproducibility presumes deterministic BLAS for a fixed thread count (torch threads pinned to 1; a failing pair is re-run once)']
-    ctx.not_covered = ['membership of CONTINUOUS outputs (unitary, PSD, POVM, Kraus, ...) in their sets - analytic, no exact model (DESIGN section 1(D))']
+    ctx.not_covered = ['membership of continuous outputs finer than the rounding tolerance (2.5% of the squared scale)', 'the distribution of the outputs (Haar, Bures, ...)', 'separability of rand_separable_dm beyond PSD + PPT', 'rand_channel_matrix_space / rand_quantum_channel_matrix_subspace / rand_reducible_matrix_subspace / rand_symmetric_inner_product membership']
     r = tlc.run('rng/MC_Rng.tla', dump=True)
     ctx.add_model('MC_Rng(len<=4)', r)
     hists = [st['hist'] for st in tlc.parse_dump(r)]
@@ -248,6 +359,31 @@ def run(ctx):
         e = ev[gi]
         ctx.violation('C10:rand_%s:invalid-output' % e['kind'], 'discrete generator returned an object outside the advertised set', e)
     ctx.sample(dict(kind='validity-event', event=ev[7]))
+    # ---- membership of the continuous generators: every admissible argument combination (MC_RngArgs) x seeds
+    r = tlc.run('rng/MC_RngArgs.tla', 'rng/MC_RngArgs.cfg', dump=True)
+    ctx.add_model('MC_RngArgs', r)
+    calls = [st['a'] for st in tlc.parse_dump(r)]
+    mev = []
+    for a in calls:
+        for sd in (range(2) if quick else range(8)):
+            seed = 1000 * sd + 17 * a['d1'] + a['k']
+            ctx.case(('member', a['fn'], a['d1'], a['d2'], a['k'], a['flag'], a['batch'], seed))
+            try:
+                mev.append(membership_event(a, seed))
+            except Exception as ex:
+                ctx.violation('C10:%s:exception' % a['fn'], 'an admissible call raised %s: %s' % (type(ex).__name__, str(ex)[:120]), dict(call=a, seed=seed))
+    acc, rej, results = tlc.validate_events('rng/Trace_Rng.tla', 'rng/Trace_Rng.cfg', [[e] for e in mev], shards=16)
+    for r in results:
+        ctx.states += r.distinct
+        ctx.transitions += r.generated
+    ctx.models.append(dict(model='Trace_Rng[membership]', events=len(mev), accepted=acc, rejected=len(rej), exhaustive=False))
+    ctx.traces += len(mev)
+    for gi, info in rej:
+        e = mev[gi]
+        ctx.violation('C10:%s:membership:%s' % (e['fn'], info[-1]), '%s%s returned an object outside the advertised set: claim "%s" rejected' % (e['fn'], tuple(e['a'][x] for x in ('d1', 'd2', 'k', 'flag', 'batch')), info[-1]),
+                      dict(call=e['a'], seed=e['seed'], failing_claim=info[-1]))
+    ctx.sample(dict(kind='membership-event', call=mev[40]['a'], claims=[c['c'] for c in mev[40]['claims']]))
+    ctx.tolerances = dict(scale=SCALE, quadratic_forms='1/40 of the squared scale', determinant='1/8 at scale %d' % TSCALE)
 
 
 def replay(ctx, rec):
